@@ -56,6 +56,14 @@ out += ["", "Changes that were missed at first and what was strengthened:", "",
         "  `C13_r2m1` / `C13_r2m2` (double free on a repeated foreign BOS serial; leak when headerout is called again) - foreign-BOS damage (once, twice) and repeated headerout added to the C13 scenarios;",
         "  `C15_r2m2` (psy curve index one past the end for input hotter than full scale) - over-range and alternating +-1 input added to the post-set-up encode; `C16_r2m1` / `C16_r2m2` (case folding off by one at '{'; struct's vendor copied) - tags built from the characters adjacent to the letter ranges, and a foreign vendor in the source structure with the library's own string as reference;",
         "  `C18_r2m2` (pcm buffers malloc'd instead of calloc'd, visible only for streams of <= 32 samples) - pipeline of encodes shorter than one block; `C19_r2m1` / `C19_r2m2` (crosslap with differing half-rate settings; lapout flag not reset per block) - independent half-rate per handle in the crosslap pairs and lapped seeks inside the histories; `C20_r2m2` (flag used as a shift count) - enabling with non-zero values other than 1.",
+        "* Round 3 (sub-agents asked for two cooperating edits, multi-step histories or unusual-but-valid layouts; 24 changes, 16 caught as the checks stood):",
+        "  `C08_r3m2` (link start times summed in `float`: error = seconds in front of the link x 2^-24 x its rate) - model-made links now take extreme sample rates (1 Hz ... 768 kHz) in 30 % of cases, so a few thousand",
+        "  seconds precede later links; `C12_r3m1` / `C12_r3m2` (lapped seek sizes its buffers from link 0 after a failed seek; `ov_crosslap` carries on after end-of-data from a dumped handle) - C12 now makes one further call",
+        "  (crosslap either way round, read, lapped seeks) while the fault persists, and half of the recovery probes start with a lapped seek; `C13_r3m1` / `C13_r3m2` (floor-0 map shared between equal block sizes and freed twice;",
+        "  refused decoder set-up leaked from the third attempt on) - model streams with equal block sizes decoded in both flags, set-ups with an over-populated codebook, repeated refused `vorbis_synthesis_init`, and an undecodable",
+        "  link inside vorbisfile chains; `C14_r3m2` (candidate packets sized in bits, not whole bytes: 1-7 bits over) - the 8-bit allowance of the window check now applies only to reservoirs smaller than one byte;",
+        "  `C04_r3m1` (decoder rejects packets the rate manager truncated) - C04 has a stratum with average tracking off and a hard maximum below the nominal rate (saturation is measured and counted);",
+        "  `C09_r3m2` (`ov_read` keeps the previous link's frame size for one call) - C09 repeats the linear read through the integer interface (C07 and C17 caught it as well).",
         "<!-- AUTOGEN-END -->"]
 p = os.path.join(V, 'DESIGN.md')
 s = open(p).read()
